@@ -45,6 +45,9 @@ def valid_requests(v=39):
             'resource_provider_generation': 2, 'inventories': {'VCPU': {'total': 8, 'reserved': 1, 'min_unit': 1, 'max_unit': 8,
                                                                           'step_size': 1, 'allocation_ratio': 2.0}}}),
         ('POST', '/resource_providers/%s/inventories' % S, None, {'resource_class': 'CUSTOM_N0', 'total': 5}),
+        # reserved == total (allowed from 1.26): capacity 0 whatever the ratio, so an odd ratio gets past the capacity check
+        ('POST', '/resource_providers/%s/inventories' % S, None, {'resource_class': 'MEMORY_MB', 'total': 5, 'reserved': 5,
+                                                                   'allocation_ratio': 1.5}),
         ('GET', '/resource_providers/%s/inventories/VCPU' % A, None, None),
         ('PUT', '/resource_providers/%s/inventories/VCPU' % S, None, {'resource_provider_generation': 2, 'total': 4}),
         ('DELETE', '/resource_providers/%s/inventories/DISK_GB' % S, None, None),
